@@ -165,6 +165,7 @@ enum RSpec {
     Above,      // r = ds[last] + 1
     Zero,       // r = 0    -> error
     Neg,        // r = -1   -> error
+    Abs(f64),   // r given directly (skipped when it is within 1e-9 of a data distance)
 }
 
 struct Case<'a> {
@@ -255,6 +256,13 @@ fn sweep<D: Distance<P, f64>>(dist: D, c: &Case) -> Value {
             RSpec::Above => (ds[m - 1] + 1.0, proj(ds[m - 1])),
             RSpec::Zero => (0.0, 0),
             RSpec::Neg => (-1.0, 0),
+            RSpec::Abs(r) if r > 0.0 && ds.iter().all(|&d| (d - r).abs() > 1.0e-9 * (1.0 + r)) => {
+                // key of the largest data distance below r
+                match ds.iter().rposition(|&d| d < r) {
+                    Some(j) => (r, proj(ds[j])),
+                    None => (r, proj(ds[0]) - 1),
+                }
+            }
             _ => continue,
         };
         if !r.is_finite() {
@@ -273,6 +281,7 @@ fn sweep<D: Distance<P, f64>>(dist: D, c: &Case) -> Value {
             RSpec::Above => "above",
             RSpec::Zero => "zero",
             RSpec::Neg => "neg",
+            RSpec::Abs(_) => "abs",
         };
         let res = guard(|| {
             s.find_radius(c.q, r)
@@ -544,6 +553,30 @@ fn gen_random(outp: &str) {
             }
         }
     }
+    // ---- continuous 2-D data with small absolute radii (the DBSCAN-like use of find_radius):
+    // points uniform in a square, radius a fraction of the typical spacing, so that most
+    // subtrees are out of reach and the pruning rules of find_radius decide the answer
+    let groups2 = if big { 800 } else { 300 };
+    for g in 0..groups2 {
+        let n = rng.gen_range(3..=if g % 5 == 0 { 60 } else { 12 });
+        let side = [10.0, 20.0, 40.0][g % 3];
+        // half of the sets on a half-integer grid (exact ties), half fully continuous
+        let data: Vec<P> = (0..n).map(|_| (0..2).map(|_| {
+            let v: f64 = rng.gen_range(0.0..side);
+            if g % 2 == 0 { (v * 2.0).round() / 2.0 } else { v }
+        }).collect()).collect();
+        let m = [Metric::Euc, Metric::Man, Metric::Mink(3)][(g / 2) % 3];
+        let rs: Vec<RSpec> = vec![RSpec::Abs(rng.gen_range(0.3..1.5)), RSpec::Abs(rng.gen_range(1.5..4.0)),
+            RSpec::Abs(rng.gen_range(4.0..side / 2.0)), RSpec::At(rng.gen_range(0..3)), RSpec::Mid(rng.gen_range(0..3)), RSpec::Zero];
+        let ks = vec![1, 2.min(n), n];
+        let mut qs: Vec<P> = vec![data[rng.gen_range(0..n)].clone(), data[rng.gen_range(0..n)].clone()];
+        qs.push((0..2).map(|_| rng.gen_range(0.0..side)).collect());
+        for q in &qs {
+            run += 1;
+            let c = Case { run, src: "cont", metric: m, backend: "cover", u: 1, data: &data, q, ks: &ks, rs: &rs };
+            out.emit(with_metric!(m, d, sweep(d, &c)));
+        }
+    }
     println!("{} random sweep events", out.finish());
 }
 
@@ -691,22 +724,95 @@ struct EstCase<'a> {
     x: &'a [P],
     y: &'a [f64],
     qs: &'a [P],
+    /// how the parameter object is put together: a permutation of the builder calls
+    /// k = with_k, w = with_weight, a = with_algorithm, d = with_distance (no `d`: the default
+    /// metric is kept — Euclid only), or F = assignment of the public fields (before / after
+    /// with_distance)
+    order: &'a str,
 }
 
+fn alg_of(b: &str) -> KNNAlgorithmName {
+    if b == "linear" { KNNAlgorithmName::LinearSearch } else { KNNAlgorithmName::CoverTree }
+}
+fn wf_of(w: &str) -> KNNWeightFunction {
+    if w == "uniform" { KNNWeightFunction::Uniform } else { KNNWeightFunction::Distance }
+}
+
+/// builders of the two parameter types, applying the configuration calls in the recorded order
+macro_rules! param_builders {
+    ($ty:ident, $apply:ident, $fields:ident, $build:ident, $build_nod:ident) => {
+        fn $apply<D: Distance<P, f64>>(p: $ty<f64, D>, ch: char, c: &EstCase) -> $ty<f64, D> {
+            match ch {
+                'k' => p.with_k(c.k),
+                'w' => p.with_weight(wf_of(c.weight)),
+                'a' => p.with_algorithm(alg_of(c.backend)),
+                _ => p,
+            }
+        }
+        fn $fields<D: Distance<P, f64>>(mut p: $ty<f64, D>, c: &EstCase) -> $ty<f64, D> {
+            p.k = c.k;
+            p.weight = wf_of(c.weight);
+            p.algorithm = alg_of(c.backend);
+            p
+        }
+        fn $build<D: Distance<P, f64>>(dist: D, c: &EstCase) -> $ty<f64, D> {
+            let mut p0 = $ty::default();
+            let mut it = c.order.chars();
+            for ch in it.by_ref() {
+                if ch == 'd' {
+                    break;
+                }
+                p0 = if ch == 'F' { $fields(p0, c) } else { $apply(p0, ch, c) };
+            }
+            let mut p1 = p0.with_distance(dist);
+            for ch in it {
+                p1 = if ch == 'F' { $fields(p1, c) } else { $apply(p1, ch, c) };
+            }
+            p1
+        }
+        /// orders without `d`: the default (Euclidian) metric is kept
+        fn $build_nod(c: &EstCase) -> $ty<f64, smartcore::math::distance::euclidian::Euclidian> {
+            let mut p0 = $ty::default();
+            for ch in c.order.chars() {
+                p0 = if ch == 'F' { $fields(p0, c) } else { $apply(p0, ch, c) };
+            }
+            p0
+        }
+    };
+}
+param_builders!(KNNClassifierParameters, apply_cls, fields_cls, build_cls, build_cls_nod);
+param_builders!(KNNRegressorParameters, apply_reg, fields_reg, build_reg, build_reg_nod);
+
+const ORDERS_D: [&str; 26] = ["kwad", "kwda", "kawd", "kadw", "kdwa", "kdaw", "wkad", "wkda", "wakd", "wadk", "wdka", "wdak",
+    "akwd", "akdw", "awkd", "awdk", "adkw", "adwk", "dkwa", "dkaw", "dwka", "dwak", "dakw", "dawk", "dF", "Fd"];
+const ORDERS_NOD: [&str; 7] = ["kwa", "kaw", "wka", "wak", "akw", "awk", "F"];
+
 fn est_event<D: Distance<P, f64>>(dist: D, c: &EstCase) -> Value {
-    let alg = || if c.backend == "linear" { KNNAlgorithmName::LinearSearch } else { KNNAlgorithmName::CoverTree };
-    let wf = || if c.weight == "uniform" { KNNWeightFunction::Uniform } else { KNNWeightFunction::Distance };
+    if c.order.contains('d') {
+        est_event_with(c, || build_cls(dist.clone(), c), || build_reg(dist.clone(), c))
+    } else {
+        // only generated for the Euclidian metric
+        est_event_with(c, || build_cls_nod(c), || build_reg_nod(c))
+    }
+}
+
+fn est_event_with<D: Distance<P, f64>>(
+    c: &EstCase,
+    mk_cls: impl Fn() -> KNNClassifierParameters<f64, D>,
+    mk_reg: impl Fn() -> KNNRegressorParameters<f64, D>,
+) -> Value {
     let xm = mat(c.x);
     let yv: Vec<f64> = c.y.to_vec();
     let mut ev = json!({"run": c.run, "ev": "KnnPredict", "kind": c.kind, "metric": c.metric.name(), "p": c.metric.p(),
-        "backend": c.backend, "weight": c.weight, "k": c.k, "n": c.x.len(),
+        "backend": c.backend, "weight": c.weight, "k": c.k, "n": c.x.len(), "order": c.order,
+        "wBeforeD": match (c.order.find(|ch| ch == 'w' || ch == 'F'), c.order.find('d')) { (Some(a), Some(b)) => a < b, _ => false },
+        "viaFields": c.order.contains('F'), "defaultMetric": !c.order.contains('d'),
         "u": 2, "ident": c.x.iter().all(|r| *r == c.x[0]),
         "X": c.x.iter().map(|r| to_i(r, 2)).collect::<Vec<_>>(), "y": to_i(c.y, 1)});
     let mut preds: Vec<Value> = Vec::new();
     let q10 = Q::new(10);
     if c.kind == "cls" {
-        let fit = guard(|| KNNClassifier::fit(&xm, &yv,
-            KNNClassifierParameters::default().with_distance(dist.clone()).with_algorithm(alg()).with_weight(wf()).with_k(c.k)));
+        let fit = guard(|| KNNClassifier::fit(&xm, &yv, mk_cls()));
         match fit {
             Ok(Ok(model)) => {
                 ev["fit"] = json!("ok");
@@ -737,8 +843,7 @@ fn est_event<D: Distance<P, f64>>(dist: D, c: &EstCase) -> Value {
             Err(_) => ev["fit"] = json!("panic"),
         }
     } else {
-        let fit = guard(|| KNNRegressor::fit(&xm, &yv,
-            KNNRegressorParameters::default().with_distance(dist.clone()).with_algorithm(alg()).with_weight(wf()).with_k(c.k)));
+        let fit = guard(|| KNNRegressor::fit(&xm, &yv, mk_reg()));
         match fit {
             Ok(Ok(model)) => {
                 ev["fit"] = json!("ok");
@@ -818,8 +923,13 @@ fn gen_est(outp: &str) {
                     for k in 0..=n + 1 {
                         for kind in ["cls", "reg"] {
                             run += 1;
+                            // construction order of the parameter object: any of the 24
+                            // permutations of the four builder calls, field assignment, and (for
+                            // the default metric) the orders that never call with_distance
+                            let no = rng.gen_range(0..if *m == Metric::Euc { 33 } else { 26 });
+                            let order = if no < 26 { ORDERS_D[no] } else { ORDERS_NOD[no - 26] };
                             let c = EstCase { run, kind, metric: *m, backend: b, weight: w, k, x: &x,
-                                y: if kind == "cls" { &ycls } else { &yreg }, qs: &qs };
+                                y: if kind == "cls" { &ycls } else { &yreg }, qs: &qs, order };
                             out.emit(with_metric!(*m, d, est_event(d, &c)));
                         }
                     }
@@ -1021,10 +1131,11 @@ fn rerun(inp: &str, outp: &str) {
                 Some(a) if !a.is_empty() => a.iter().map(|p| to_f(&ivec(&p["q"]), 2)).collect(),
                 _ => vec![x[0].clone()],
             };
+            let order = e["order"].as_str().unwrap_or("dawk").to_string();
             let (kind, backend, weight) = (e["kind"].as_str().unwrap_or("cls").to_string(),
                 e["backend"].as_str().unwrap_or("cover").to_string(), e["weight"].as_str().unwrap_or("uniform").to_string());
             let c = EstCase { run: e["run"].as_i64().unwrap_or(0), kind: &kind, metric: m, backend: &backend, weight: &weight,
-                k: e["k"].as_u64().unwrap_or(0) as usize, x: &x, y: &y, qs: &qs };
+                k: e["k"].as_u64().unwrap_or(0) as usize, x: &x, y: &y, qs: &qs, order: &order };
             out.emit(with_metric!(m, d, est_event(d, &c)));
             redone += 1;
         } else {
